@@ -9,6 +9,8 @@ timestamped wire trace, upward notifications and send outcomes.
 """
 from __future__ import annotations
 
+from ..excfam import family
+
 import asyncio
 import itertools
 import random
@@ -224,7 +226,7 @@ def run_case(case, acc: Acc | None = None):
                 trace.append(("cancelled", clock(), i))
                 raise
             except BaseException as e:  # noqa: BLE001
-                trace.append(("exc", clock(), i, type(e).__name__))
+                trace.append(("exc", clock(), i, family(e)))
             else:
                 trace.append(("ret", clock(), i))
 
